@@ -455,3 +455,129 @@ func TestC18Hammer(t *testing.T) {
 	}
 	Drive(t, "C18", gen, runC18)
 }
+
+// ---------------------------------------------------------------- recency under eviction pressure
+
+type c18RecencyCase struct {
+	Seed     uint64 `json:"seed"`
+	Size     int    `json:"size"`     // cache size, >= 2
+	Bugs     int    `json:"bugs"`     // > size
+	Accesses []int  `json:"accesses"` // Resolve calls before the probe
+	PickOld  bool   `json:"pick_old"` // the probed bug is the least recently used loaded one (else Probe picks)
+	Probe    int    `json:"probe"`
+	Other    int    `json:"other"`
+}
+
+func genC18Recency(t *rapid.T) c18RecencyCase {
+	c := c18RecencyCase{Seed: rapid.Uint64().Draw(t, "seed"), Size: rapid.IntRange(2, 4).Draw(t, "size")}
+	c.Bugs = c.Size + rapid.IntRange(1, 4).Draw(t, "extra")
+	c.Accesses = rapid.SliceOfN(rapid.IntRange(0, c.Bugs-1), 0, 12).Draw(t, "accesses")
+	c.PickOld = rapid.Bool().Draw(t, "pickOld")
+	c.Probe = rapid.IntRange(0, c.Bugs-1).Draw(t, "probe")
+	c.Other = rapid.IntRange(0, c.Bugs-1).Draw(t, "other")
+	return c
+}
+
+// runC18Recency: a request resolves a bug and then edits it. Between the two, another request resolves one bug
+// that is not loaded, which evicts one entity. With a cache of two or more entities, the bug resolved a moment
+// ago is not the least recently used one, so it must not be the victim: the edit completes (F16, the known
+// finding, is about handles that were legitimately evicted because enough OTHER bugs were used since).
+func runC18Recency(tb report.TB, rep *report.Reporter, c c18RecencyCase) {
+	w, err := NewCWorld(1, c.Seed)
+	if err != nil {
+		tb.Fatalf("harness: %v", err)
+	}
+	r := w.R[0]
+	me, _ := r.Cache.GetUserIdentity()
+	var ids []string
+	for i := 0; i < c.Bugs; i++ {
+		bc, _, err := r.Cache.Bugs().NewRaw(me, int64(1000+i), fmt.Sprintf("bug %d", i), "m", nil, nil)
+		if err != nil {
+			tb.Fatalf("harness: %v", err)
+		}
+		ids = append(ids, string(bc.Id()))
+	}
+	// model of what is loaded, least recently used first
+	lru := append([]int(nil), make([]int, 0)...)
+	for i := range ids {
+		lru = append(lru, i)
+	}
+	touch := func(i int) (hit bool) {
+		for k, x := range lru {
+			if x == i {
+				lru = append(append(lru[:k:k], lru[k+1:]...), i)
+				return true
+			}
+		}
+		lru = append(lru, i)
+		return false
+	}
+	shrink := func() {
+		for len(lru) > c.Size {
+			lru = lru[1:]
+		}
+	}
+	r.Cache.Bugs().SetCacheSize(c.Size)
+	shrink()
+	for _, a := range c.Accesses {
+		if _, err := r.Cache.Bugs().Resolve(entity.Id(ids[a])); err != nil {
+			tb.Fatalf("harness: resolve: %v", err)
+		}
+		touch(a)
+		shrink()
+	}
+	probe := c.Probe
+	if c.PickOld && len(lru) > 0 {
+		probe = lru[0]
+	}
+	handle, err := r.Cache.Bugs().Resolve(entity.Id(ids[probe]))
+	if err != nil {
+		tb.Fatalf("harness: resolve: %v", err)
+	}
+	hit := touch(probe)
+	shrink()
+	// another request: a bug that is not loaded (by the model), so that exactly one entity is evicted
+	other := -1
+	for k := 0; k < c.Bugs; k++ {
+		cand := (c.Other + k) % c.Bugs
+		loaded := false
+		for _, x := range lru {
+			loaded = loaded || x == cand
+		}
+		if !loaded && cand != probe {
+			other = cand
+			break
+		}
+	}
+	if other < 0 {
+		tb.Fatalf("harness: no unloaded bug (size %d, bugs %d)", c.Size, c.Bugs)
+	}
+	if _, err := r.Cache.Bugs().Resolve(entity.Id(ids[other])); err != nil {
+		tb.Fatalf("harness: resolve: %v", err)
+	}
+	rep.Case(fmt.Sprintf("recency|s%d|b%d|a%d|hit%v|old%v", c.Size, c.Bugs, len(c.Accesses), hit, c.PickOld), hit && c.PickOld,
+		[]string{"recency-probe", fmt.Sprintf("probe-was-loaded:%v", hit), fmt.Sprintf("probe-was-least-recently-used:%v", c.PickOld)}, c)
+	done := make(chan error, 1)
+	go func() {
+		_, _, err := handle.AddCommentRaw(me, 5000, "edit right after resolving", nil, nil)
+		if err == nil {
+			err = handle.CommitAsNeeded()
+		}
+		done <- err
+	}()
+	select {
+	case err := <-done:
+		w.Close()
+		if err != nil {
+			rep.Fail(tb, "C18/eviction/edit-after-resolve-fails/"+Normalize(err.Error()), err.Error(), c)
+		}
+	case <-time.After(5 * time.Second):
+		dump := allGoroutines()
+		_ = os.RemoveAll(w.Dir) // the blocked goroutine cannot be cancelled: leave the world behind
+		rep.Fail(tb, "C18/eviction/most-recently-resolved-bug-evicted", fmt.Sprintf("cache size %d, %d bugs: a bug was resolved (loaded before: %v), then ONE other bug was loaded, and the edit through the handle blocks forever: the eviction chose the bug used a moment ago instead of the least recently used one\n%s", c.Size, c.Bugs, hit, truncate(dump, 2500)), c)
+	}
+}
+
+func TestC18Recency(t *testing.T) {
+	Drive(t, "C18", genC18Recency, runC18Recency)
+}
